@@ -1139,6 +1139,10 @@ class Mini:
                 return f([recv] + args, n) if getattr(f, "with_node", False) else f([recv] + args)
         if isinstance(recv, str) and nm in ("to_string", "to_owned", "as_str", "into", "as_ref") and not args and p.startswith(("std::", "core::", "alloc::")) and recv != "None":
             return recv  # strings are values here: owned / borrowed forms coincide
+        if isinstance(recv, bool) and p.startswith("std::bool::<impl bool>::") and nm in ("then_some", "then") and len(args) == 1:
+            if not recv:
+                return "None"
+            return ("Some", args[0] if nm == "then_some" else self.apply(args[0], []))
         if isinstance(recv, str) and recv != "None" and p.startswith(("std::str::<impl str>::", "std::string::String::", "alloc::str::<impl str>::")):
             def _s(a0):
                 if isinstance(a0, tuple) and len(a0) == 2 and a0[0] == "lit" and isinstance(a0[1], str) and len(a0[1]) == 1:
@@ -1172,6 +1176,9 @@ class Mini:
                 return (a0 in recv) if nm == "contains" else recv.startswith(a0) if nm == "starts_with" else recv.endswith(a0)
         if nm == "contains" and isinstance(recv, tuple) and recv and recv[0] in ("range", "rangeincl") and len(args) == 1 and all(isinstance(x, int) and not isinstance(x, bool) for x in (recv[1], recv[2], args[0])):
             return recv[1] <= args[0] <= recv[2] if recv[0] == "rangeincl" else recv[1] <= args[0] < recv[2]
+        if nm == "contains" and isinstance(recv, list) and len(args) == 1 and p.startswith(("std::slice::<impl [T]>::", "std::vec::Vec")):
+            a0 = args[0].get() if isinstance(args[0], Ref) else args[0]
+            return any(x == a0 for x in recv)
         if p.startswith("std::slice::<impl [T]>::") and nm == "fill" and isinstance(recv, list) and len(args) == 1:
             recv[:] = [args[0]] * len(recv)
             return ()
